@@ -104,3 +104,37 @@ Example g_example_basepart :
   (do p <- M_BasePartition_new 3%N; do r <- M_BasePartition_split_block p 1%N 2; M_BasePartition_slice (fst r) 2%N) = Some [2%N] /\
   (do p <- M_BasePartition_new 3%N; M_BasePartition_pick_element p 0%N) = None.
 Proof. repeat split; vm_compute; reflexivity. Qed.
+
+(* impl Display for BasePartition: the inner loop prints " x" for every element and cannot fail; on a well-formed
+   partition the whole printer never panics, returns Ok and only appends to the formatter's buffer *)
+Lemma g_fmt_block els f :
+  BasePartition_fmt_loop2 els f = Some (LoopDone (f ++ flat_map (fun x => 32%N :: i32_to_string (Z.of_N x)) els)).
+Proof.
+  revert f. induction els as [|x els IH]; intros f; cbn [BasePartition_fmt_loop2 flat_map].
+  - rewrite app_nil_r. reflexivity.
+  - rewrite IH. cbn [app]. rewrite <- ?app_assoc. reflexivity.
+Qed.
+Lemma g_fmt_blocks n p l f : bp_wf n (convbp p) -> (N.of_nat n < 4294967296)%N ->
+  (forall i, In i l -> 1 <= N.to_nat i < nblk (convbp p)) ->
+  exists out, BasePartition_fmt_loop1 l p f = Some (LoopDone (f ++ out)).
+Proof.
+  intros W Hn. revert f. induction l as [|i l IH]; intros f Hl; cbn [BasePartition_fmt_loop1].
+  - exists []. rewrite app_nil_r. reflexivity.
+  - destruct (g_block_elements n p i W Hn (Hl i (or_introl eq_refl))) as (sz & els & _ & E & _).
+    rewrite E. cbn [bind]. rewrite g_fmt_block. cbn [bind].
+    destruct (IH ((f ++ [98; 108; 111; 99; 107; 91]%N ++ i32_to_string (Z.of_N i) ++ [93; 58; 32]%N)
+                    ++ flat_map (fun x => 32%N :: i32_to_string (Z.of_N x)) els ++ [10%N])) as (out & Eo).
+    { intros j Hj. apply Hl. right. exact Hj. }
+    rewrite <- ?app_assoc in Eo. rewrite <- ?app_assoc. rewrite Eo. eexists. rewrite <- ?app_assoc. reflexivity.
+Qed.
+Lemma g_fmt_total n p f : bp_wf n (convbp p) -> (N.of_nat n < 4294967296)%N ->
+  (N.of_nat (length (BasePartition_block p)) < 4294967296)%N ->
+  exists out, M_BasePartition_fmt p f = Some (f ++ out, Ok tt).
+Proof.
+  intros W Hn Hb. unfold M_BasePartition_fmt, BasePartition_fmt.
+  rewrite link_num_blocks by (unfold fits; lia). cbn [bind].
+  destruct (g_fmt_blocks n p (map N.of_nat (seq (N.to_nat 1) (N.to_nat (N.of_nat (bp_num_blocks (convbp p))) - N.to_nat 1))) f W Hn) as (out & E).
+  { intros i Hi. apply in_map_iff in Hi as (k & Ek & Hk). apply in_seq in Hk. subst i. rewrite !Nat2N.id in *.
+    unfold nblk, bp_num_blocks in *. change (N.to_nat 1) with 1 in Hk. lia. }
+  rewrite E. cbn [bind]. exists out. reflexivity.
+Qed.
